@@ -29,7 +29,7 @@ def c19_slice(cols, roles, depth, hist):
     items += [p for p in pr if list(p["ops"].values())[:1] and list(p["ops"].values())[0][1] in ("sum", "_size")][:4]
     items += menus.select_rows_items(cols, roles)[:2]
     ci = menus.column_items(cols, roles)
-    items += [c for c in ci if c["op"] in ("drop_columns", "rename_columns", "map_columns")][:5] + [c for c in ci if c["op"] == "select_columns"][:2]
+    items += [c for c in ci if c["op"] in ("drop_columns", "rename_columns")][:3] + [c for c in ci if c["op"] == "map_columns"] + [c for c in ci if c["op"] == "select_columns"][:2]
     items += [o for o in menus.order_items(cols, roles) if o["limit"] in (None, 1)][:3]
     items += menus.join_items(cols, roles, depth, jointypes=("LEFT", "FULL", "CROSS"), rights=[menus.E_HIST])
     items += menus.concat_items(cols, roles, depth)
@@ -145,6 +145,34 @@ def entry_points(ops, hist, frames, single):
         yield "ex", (lambda: build_captured(hist, frames).ex())
 
 
+def pure_uses(ops, hist):
+    """operations on a pipeline object that must leave it unchanged (exceptions are not this property's business)"""
+    from data_algebra.data_ops import TableDescription
+
+    def quiet(f):
+        try:
+            f()
+        except BaseException as e:
+            if isinstance(e, (KeyboardInterrupt, SystemExit)):
+                raise
+
+    quiet(lambda: ops.to_python(pretty=False))
+    quiet(lambda: repr(ops))
+    quiet(lambda: ops == ops)
+    quiet(lambda: ops.columns_used())
+    quiet(lambda: ops.methods_used())
+    quiet(lambda: backends.gen_sql(ops))
+    quiet(lambda: backends.gen_sql(ops, model=backends.pg_model()))
+    tname = hist["table"]
+    cols = list(H.TABLES[tname])
+    up = TableDescription(table_name=tname, column_names=cols).extend({cols[1]: cols[1] + " + 0"}) if len(cols) > 1 else None
+    quiet(lambda: TableDescription(table_name="other_name", column_names=cols) >> ops)
+    quiet(lambda: ops.replace_leaves({tname: TableDescription(table_name="other_name", column_names=cols)}))
+    if up is not None:
+        quiet(lambda: up >> ops)
+        quiet(lambda: ops.eval({tname: up}))
+
+
 def work(hists, open_ids, quick=False):
     part = core.Part(open_ids)
     for hist in hists:
@@ -158,6 +186,30 @@ def work(hists, open_ids, quick=False):
             # the two-row tables made of different rows
             datas = [dm for dm in datas if len(dm["d"]["rows"]) < 2 or dm["d"]["rows"][0] != dm["d"]["rows"][1]]
             datas = [dm for dm in datas if len(dm["d"]["rows"]) < 2 or dm["d"]["rows"][0] == inputs.D_ROWS_Q[0]]
+        # once per pipeline: evaluate, use the pipeline object in ways that must not change it, evaluate again
+        probe = max(datas, key=lambda dm: sum(len(t["rows"]) for t in dm.values()))
+        pre = {}
+        for k0 in ("pandas", "polars_eager"):
+            try:
+                pre[k0] = ("ok", result_snap(ops.eval(mk_frames(k0, probe, "default", False))))
+            except BaseException as e:
+                if isinstance(e, (KeyboardInterrupt, SystemExit)):
+                    raise
+                pre[k0] = ("raise", type(e).__name__)
+        pure_uses(ops, hist)
+        for k0 in ("pandas", "polars_eager"):
+            try:
+                post = ("ok", result_snap(ops.eval(mk_frames(k0, probe, "default", False))))
+            except BaseException as e:
+                if isinstance(e, (KeyboardInterrupt, SystemExit)):
+                    raise
+                post = ("raise", type(e).__name__)
+            part.count("pure_use_probes")
+            if (pre[k0][0] != post[0]) or (post[0] == "ok" and pre[k0][1] != post[1]):
+                part.violation(
+                    {"history": hist, "data": probe, "frame_kind": k0, "entry": "eval", "first": pre[k0], "after_pure_uses": post},
+                    f"{k0}: after printing / comparing / translating / composing the pipeline object, evaluating it on the same input gives a different result: {H.short(hist)}",
+                )
         for data in datas:
             nrows = len(data[hist["table"]]["rows"])
             variants = [("pandas", iv, ex) for iv in (INDEX_VARIANTS if nrows > 0 else ["default"]) for ex in ((False, True) if iv == "default" else (False,))]
@@ -189,7 +241,8 @@ def work(hists, open_ids, quick=False):
                         changed = [k for k in before if after.get(k) != before[k]]
                         part.violation(dict(case, changed_tables=changed, before=before, after=after), f"{kind}/{ename}: evaluation modified the caller's input frame(s) {changed}: {H.short(hist)}")
                         continue
-                    # repeatability
+                    # repeatability - with the pipeline *used* in between in ways that must not change it:
+                    # printed, compared, asked for its columns, translated, composed with a table and with a pipeline
                     try:
                         r2 = thunk()
                         s2 = result_snap(r2)
@@ -222,6 +275,7 @@ def run(tier):
     run.set("transitions", ex1.stats()["transitions"] + ex2.stats()["transitions"])
     run.assumptions += [
         "pipelines in the menus use no random-number methods",
+        "between the two evaluations (Pandas and Polars eager frames, eval entry point) the pipeline object is printed, compared, asked for its columns and methods, translated to two SQL dialects and composed with a table and with another pipeline: none of these may change what it computes",
         "snapshots compare cell values by repr (bit-exact floats, NaN as a value), dtypes, column list, index values and index name; attrs/flags are ignored",
         "act_on / frame >> ops / ex are only driven for single-table pipelines; extra unused input columns only through eval and transform (the strict entry points reject them by design)",
     ]
